@@ -20,6 +20,26 @@ pub type GenNr = u64;
 #[verifier::external_body] pub struct PdfStream { p: core::marker::PhantomData<()> }
 #[verifier::external_body] pub struct XRefTable { p: core::marker::PhantomData<()> }
 #[verifier::external_body] pub struct ParseOptions { p: core::marker::PhantomData<()> }
+/// object/mod.rs ParseOptions::strict(): the options a document is opened with unless the caller says otherwise
+pub uninterp spec fn strict_options() -> ParseOptions;
+impl ParseOptions {
+    #[verifier::external_body] pub const fn strict() -> (r: ParseOptions) ensures r == strict_options() { unimplemented!() }
+}
+// file.rs: the cache / log configurations the crate offers (their behaviour: units/cachetransp)
+pub struct NoCache;
+pub struct NoLog;
+#[verifier::external_body] pub struct AnySync { p: core::marker::PhantomData<()> }
+#[verifier::external_body]
+#[verifier::reject_recursive_types(K)]
+#[verifier::reject_recursive_types(V)]
+pub struct SyncCache<K, V> { p: core::marker::PhantomData<(K, V)> }
+impl<K, V> SyncCache<K, V> {
+    pub uninterp spec fn holds_nothing(&self) -> bool;
+    // globalcache::sync::SyncCache::new(): `Arc::new(SyncCache { global: .., items: HashMap::new().into() })`
+    #[verifier::external_body] pub fn new() -> (r: Arc<Self>) ensures r.holds_nothing() { unimplemented!() }
+}
+pub type ObjectCache = Arc<SyncCache<PlainRef, core::result::Result<AnySync, Arc<PdfError>>>>;
+pub type StreamCache = Arc<SyncCache<PlainRef, core::result::Result<Arc<[u8]>, Arc<PdfError>>>>;
 #[verifier::external_body] pub struct CryptDict { p: core::marker::PhantomData<()> }
 #[verifier::external_body] pub struct Trailer { p: core::marker::PhantomData<()> }
 //@@ struct PlainRef
@@ -136,6 +156,20 @@ impl<B: Backend, OC, SC, L> Storage<B, OC, SC, L> {
 }
 impl<B: Backend, OC, SC, L> File<B, OC, SC, L> {
 //@@ File::load_data
+}
+//@@ struct FileOptions
+impl FileOptions<'static, NoCache, NoCache, NoLog> {
+//@@ FileOptions::uncached
+}
+impl FileOptions<'static, ObjectCache, StreamCache, NoLog> {
+//@@ FileOptions::cached
+}
+impl<'a, OC, SC, L> FileOptions<'a, OC, SC, L> {
+//@@ FileOptions::password
+//@@ FileOptions::cache
+//@@ FileOptions::log
+//@@ FileOptions::parse_options
+//@@ FileOptions::load
 }
 }
 fn main(){}
